@@ -175,7 +175,7 @@ func c11Blob(rows, cols int, kind string) string {
 }
 
 func c11Run(c c11Case) (v vVerdict) {
-	if c.Nchan < 1 || c.Nchan > 8 || c.Npre < 3 || c.Nsamp <= c.Npre || c.Nsamp > 200 || len(c.Steps) > 80 {
+	if c.Nchan < 1 || c.Nchan > 8 || (c.Source == "lancero" && (c.Nchan%2 != 0 || c.Nchan < 4)) || c.Npre < 3 || c.Nsamp <= c.Npre || c.Nsamp > 200 || len(c.Steps) > 80 {
 		return v
 	}
 	c11Counter++
@@ -282,6 +282,22 @@ func c11Run(c c11Case) (v vVerdict) {
 				inner = e.scripted
 			case "simpulse":
 				inner = sc.simPulses
+			case "lancero":
+				// one in-memory card of 1 column x Nchan/2 rows; settings come from a cringe globals file as in production
+				rows := c.Nchan / 2
+				cg := filepath.Join(root, "cringeGlobals.json")
+				os.WriteFile(cg, []byte(fmt.Sprintf(`{"SETT":1,"seqln":%d,"lsync":20000,"testpattern":0,"propagationdelay":0,"NSAMP":4,"carddelay":0,"XPT":0}`, rows)), 0o644)
+				oldPath := cringeGlobalsPath
+				cringeGlobalsPath = cg
+				defer func() { cringeGlobalsPath = oldPath }()
+				card := &vLiveCard{cols: 1, rows: rows, period: time.Duration(20000 * rows * 8), t0: vPipeT0}
+				sc.lancero.devices = map[int]*LanceroDevice{0: {devnum: 0, card: card}}
+				sc.lancero.ncards = 1
+				var okc bool
+				if err := sc.ConfigureLanceroSource(&LanceroSourceConfig{FiberMask: 0xffff, ActiveCards: []int{0}, CardDelay: []int{1}, FirstRow: 1}, &okc); err != nil {
+					return vFailf("configure-rejected", "step %d: ConfigureLanceroSource: %v", i, err)
+				}
+				inner = sc.lancero
 			default:
 				inner = sc.triangle
 			}
@@ -481,7 +497,7 @@ func c11Run(c c11Case) (v vVerdict) {
 			}
 		case "couple":
 			on := st.Flag
-			if on {
+			if on && c.Source != "lancero" {
 				mustErr = "error/feedback coupling on a source without such pairs"
 			} else {
 				mustOK = true
@@ -533,7 +549,27 @@ func c11Run(c c11Case) (v vVerdict) {
 			}
 		case "mix":
 			queued = false
-			mustErr = "mix on a source without mix"
+			if c.Source != "lancero" || c.RealRPC {
+				mustErr = "mix on a source without mix"
+			} else if e.running {
+				if len(st.Chans) != len(st.Fracs) {
+					mustErr = "channel and fraction lists of different lengths"
+				}
+				for _, ch := range st.Chans {
+					if ch < 0 || ch >= c.Nchan || ch%2 == 0 {
+						mustErr = fmt.Sprintf("mix for channel index %d (only feedback channels, odd and < %d)", ch, c.Nchan)
+					}
+				}
+				if mustErr == "" {
+					mustOK = true
+				}
+			} else {
+				err = fmt.Errorf("not judged") // the Lancero source object outlives its runs; mix requests between runs are not part of the property
+			}
+			notJudged := c.Source == "lancero" && !c.RealRPC && !e.running
+			if notJudged {
+				continue
+			}
 			mfo := &MixFractionObject{ChannelIndices: append([]int(nil), st.Chans...), MixFractions: append([]float64(nil), st.Fracs...)}
 			err, bad = e.call("ConfigureMixFraction", func() error { var r bool; return sc.ConfigureMixFraction(mfo, &r) })
 		case "mapload":
@@ -619,6 +655,7 @@ func c11Run(c c11Case) (v vVerdict) {
 	if e.invalid > 0 {
 		v.Classes = append(v.Classes, "invalid-argument")
 	}
+	v.Classes = append(v.Classes, "source-"+c.Source)
 	return v
 }
 
@@ -663,7 +700,19 @@ func c11GenStep(t *rapid.T, c *c11Case) c11Step {
 	case k < 21:
 		return c11Step{Op: "rawblock", N: rapid.SampledFrom([]int{1, 100, 500, 100000, 0, -1, -1000000}).Draw(t, "rawn")}
 	case k < 22:
-		return c11Step{Op: "mix", Chans: []int{1}, Fracs: []float64{0.5}}
+		st := c11Step{Op: "mix"}
+		n := rapid.IntRange(0, 3).Draw(t, "nmix")
+		for q := 0; q < n; q++ {
+			st.Chans = append(st.Chans, rapid.SampledFrom([]int{1, 3, 1, c.Nchan - 1, 0, 2, c.Nchan, -1, 999}).Draw(t, "mixch"))
+		}
+		nf := n
+		if rapid.IntRange(0, 4).Draw(t, "mixmismatch") == 0 {
+			nf = rapid.IntRange(0, 4).Draw(t, "nfrac")
+		}
+		for q := 0; q < nf; q++ {
+			st.Fracs = append(st.Fracs, rapid.SampledFrom([]float64{0, 0.5, -1, 100}).Draw(t, "mixfrac"))
+		}
+		return st
 	case k < 23:
 		return c11Step{Op: "mapload", N: rapid.SampledFrom([]int{c.Nchan, c.Nchan, c.Nchan - 1, c.Nchan + 1, 0, 3}).Draw(t, "npix"), Kind: rapid.SampledFrom([]string{"", "", "", "missing"}).Draw(t, "mapkind")}
 	case k < 24:
@@ -676,11 +725,15 @@ func c11GenStep(t *rapid.T, c *c11Case) c11Step {
 }
 
 func c11Gen(t *rapid.T) c11Case {
-	c := c11Case{Source: rapid.SampledFrom([]string{"scripted", "scripted", "scripted", "triangle", "simpulse", "erroring"}).Draw(t, "source"),
+	c := c11Case{Source: rapid.SampledFrom([]string{"scripted", "scripted", "scripted", "triangle", "simpulse", "erroring", "lancero"}).Draw(t, "source"),
 		Nchan: rapid.IntRange(1, 4).Draw(t, "nchan"), SlowUs: rapid.SampledFrom([]int{0, 200, 1500, 6000}).Draw(t, "slow")}
 	c.Nsamp = rapid.SampledFrom([]int{20, 32, 50}).Draw(t, "nsamp")
 	c.Npre = rapid.IntRange(4, c.Nsamp-4).Draw(t, "npre")
-	c.RealRPC = c.Source != "scripted" && rapid.Bool().Draw(t, "realstart")
+	c.RealRPC = c.Source != "scripted" && c.Source != "lancero" && rapid.Bool().Draw(t, "realstart")
+	if c.Source == "lancero" {
+		c.Nchan = rapid.SampledFrom([]int{4, 6}).Draw(t, "lnchan")
+		c.SlowUs = rapid.SampledFrom([]int{0, 1500}).Draw(t, "lslow")
+	}
 	some := func(label string, lo, hi int) {
 		n := rapid.IntRange(lo, hi).Draw(t, label)
 		for i := 0; i < n; i++ {
